@@ -55,6 +55,7 @@ func (d *dryRun) write(h string) {
 }
 
 type FuncVC struct {
+	cparams       map[*ssa.Function]map[string]bool
 	g             *Gen
 	fn            *ssa.Function
 	con           *Contract
@@ -191,9 +192,55 @@ func (vc *FuncVC) specVars(st *State) map[string]SV {
 		vars[k] = SV{V: v, T: fr.localT[k]}
 	}
 	for k, v := range fr.localAddr {
+		if vc.constParam(fr.fn, k) {
+			continue // parameter spilled to a cell (captured by a closure) and never reassigned: the name denotes its value
+		}
 		vars[k] = v
 	}
 	return vars
+}
+
+// constParam: name is a parameter of fn whose spill cell (if any) is only written by the initial store.
+func (vc *FuncVC) constParam(fn *ssa.Function, name string) bool {
+	if vc.cparams == nil {
+		vc.cparams = map[*ssa.Function]map[string]bool{}
+	}
+	m, ok := vc.cparams[fn]
+	if !ok {
+		m = map[string]bool{}
+		for _, p := range fn.Params {
+			stores := 0
+			for _, b := range fn.Blocks {
+				for _, in := range b.Instrs {
+					if s, ok := in.(*ssa.Store); ok {
+						if al, ok := s.Addr.(*ssa.Alloc); ok && al.Comment == p.Name() {
+							stores++
+							if s.Val != p {
+								stores++
+							}
+						}
+					}
+				}
+			}
+			escapes := false
+			for _, af := range fn.AnonFuncs {
+				for _, fv := range af.FreeVars {
+					if fv.Name() == p.Name() {
+						for _, b := range af.Blocks {
+							for _, in := range b.Instrs {
+								if s, ok := in.(*ssa.Store); ok && s.Addr == ssa.Value(fv) {
+									escapes = true
+								}
+							}
+						}
+					}
+				}
+			}
+			m[p.Name()] = stores <= 1 && !escapes
+		}
+		vc.cparams[fn] = m
+	}
+	return m[name]
 }
 
 func (vc *FuncVC) checkClauses(st *State, env *SpecEnv, cls []*Clause, kind string) {
@@ -1049,7 +1096,14 @@ func (vc *FuncVC) finish(st *State, res Val) {
 		vc.ghostAssign(st, env, vc.con.GhostExit)
 		env = st.specEnv(vc.pkg, vars)
 	}
-	vc.checkClauses(st, env, vc.con.Ensures, "ensures")
+	if vc.con.ChainEnsures {
+		for _, c := range vc.con.Ensures {
+			vc.checkClauses(st, env, []*Clause{c}, "ensures")
+			vc.assumeClauses(st, env, []*Clause{c}, "ensures")
+		}
+	} else {
+		vc.checkClauses(st, env, vc.con.Ensures, "ensures")
+	}
 	if vc.con.Drains {
 		// a worker that ranges over a work channel must not return while the channel may still deliver work
 		g := "false"
